@@ -45,13 +45,64 @@ CHAINS = [
 ]
 
 
-def build():
+ELEMENTS = ["H", "He", "Li", "Be", "B", "C", "N", "O", "F", "Ne", "Na", "Mg", "Al", "Si", "P", "S", "Cl", "Ar", "K", "Ca", "Sc", "Ti", "V", "Cr",
+            "Mn", "Fe", "Co", "Ni", "Cu", "Zn", "Ga", "Ge", "As", "Se", "Br", "Kr", "Rb", "Sr", "Y", "Zr", "Nb", "Mo", "Tc", "Ru", "Rh", "Pd",
+            "Ag", "Cd", "In", "Sn", "Sb", "Te", "I", "Xe", "Cs", "Ba", "La", "Ce", "Pr", "Nd", "Pm", "Sm", "Eu", "Gd", "Tb", "Dy", "Ho", "Er",
+            "Tm", "Yb", "Lu", "Hf", "Ta", "W", "Re", "Os", "Ir", "Pt", "Au", "Hg", "Tl", "Pb", "Bi", "Po", "At", "Rn", "Fr", "Ra", "Ac", "Th",
+            "Pa", "U", "Np", "Pu", "Am", "Cm", "Bk", "Cf", "Es", "Fm"]
+
+
+def random_chains(seed):
+    """a random well-formed decay network: forward links only (parents listed first), 0-3 progeny per nuclide with decreasing
+    branching fractions summing to at most one, mid-chain stable nuclides, occasional fission branches, every storage unit,
+    pairwise distinct half-lives, members in all seven states"""
+    import random
+    rng = random.Random(seed)
+    n = rng.randint(12, 36)
+    names, used = [], set()
+    while len(names) < n:
+        nm = f"{rng.choice(ELEMENTS)}-{rng.randint(1, 270)}{rng.choice(['', '', '', 'm', 'n', 'p', 'q', 'r', 'x'])}"
+        if nm not in used:
+            used.add(nm); names.append(nm)
+    units = ["ps", "ns", "μs", "ms", "s", "m", "h", "d", "y", "ky", "My", "Gy"]
+    chains, seen_hl = [], set()
+    for i, nm in enumerate(names):
+        stable = (i == n - 1) or rng.random() < 0.25
+        if stable:
+            chains.append((nm, "inf", "s", [], f"{rng.uniform(1, 270):.6f}"))
+            continue
+        while True:
+            v, u = f"{rng.uniform(1, 999):.4g}", rng.choice(units)
+            key = Fraction(Decimal(v)) * SECS[u]
+            if key not in seen_hl:
+                seen_hl.add(key); break
+        k = min(rng.choice([1, 1, 1, 2, 2, 3]), n - 1 - i)
+        progs = rng.sample(range(i + 1, n), k) if k else []
+        weights = sorted((rng.uniform(0.05, 1.0) for _ in progs), reverse=True)
+        tot = sum(weights) / rng.choice([1.0, 1.0, 0.999, 0.97])
+        bfs = [float(f"{w / tot:.5f}") for w in weights] if progs else []
+        links = [(names[j], repr(b), rng.choice(["α", "β-", "β+", "EC", "IT", "β+ & EC"])) for j, b in zip(progs, bfs)]
+        if progs and rng.random() < 0.15:
+            sf = min(bfs) / 2
+            links.append(("SF", f"{sf:.6f}", "SF"))
+            if sum(float(l[1]) for l in links) > 1.0:
+                links.pop()
+        links.sort(key=lambda l: -float(l[1]))
+        chains.append((nm, v, u, links, f"{rng.uniform(1, 270):.6f}"))
+    year = rng.choice([Fraction(1461, 4), Fraction(3652422, 10000), Fraction(365), Fraction(366)])
+    return chains, year
+
+
+def build(CHAINS=None, YEAR=None):
+    if CHAINS is None:
+        CHAINS, YEAR = globals()["CHAINS"], globals()["YEAR"]
+    secs = dict(SECS, y=86400 * YEAR, ky=86400 * YEAR * 10**3, My=86400 * YEAR * 10**6, Gy=86400 * YEAR * 10**9)
     names = [c[0] for c in CHAINS]
     idx = {n: i for i, n in enumerate(names)}
     n = len(names)
     mu = []
     for _, v, u, _, _ in CHAINS:
-        mu.append(Fraction(0) if v == "inf" else 1 / (Fraction(Decimal(v)) * SECS[u]))
+        mu.append(Fraction(0) if v == "inf" else 1 / (Fraction(Decimal(v)) * secs[u]))
     # rate matrix / ln2
     lam = [[Fraction(0)] * n for _ in range(n)]
     for j, (_, _, _, links, _) in enumerate(CHAINS):
@@ -78,10 +129,11 @@ def build():
     return names, mu, C, Ci
 
 
-def write(outdir):
+def write(outdir, seed=None):
     import numpy as np, scipy.sparse as sp, sympy
     os.makedirs(outdir, exist_ok=True)
-    names, mu, C, Ci = build()
+    CHAINS, YEAR = (globals()["CHAINS"], globals()["YEAR"]) if seed is None else random_chains(seed)
+    names, mu, C, Ci = build(CHAINS, YEAR)
     n = len(names)
     hldata = np.empty((n, 3), dtype=object)
     progeny = np.empty(n, dtype=object); bfs = np.empty(n, dtype=object); modes = np.empty(n, dtype=object)
@@ -114,4 +166,5 @@ def write(outdir):
 
 if __name__ == "__main__":
     out = sys.argv[1] if len(sys.argv) > 1 else os.path.join(os.path.dirname(os.path.abspath(__file__)), "..", ".scratch", "synth")
-    print(write(out), "nuclides ->", os.path.normpath(out))
+    seed = int(sys.argv[2]) if len(sys.argv) > 2 else None
+    print(write(out, seed), "nuclides ->", os.path.normpath(out))
